@@ -192,7 +192,7 @@ def gen_directive(rng, nl='\n', *, allow_txn=True):
 
 def gen_file(rng, n, *, newline=None, final_newline=None):
     """A mostly-valid ledger of about n directives."""
-    nl = newline if newline is not None else rng.choice(['\n', '\n', '\n', '\r\n'])
+    nl = newline if newline is not None else rng.choice(['\n', '\n', '\n', '\n', '\n', '\r\n', '\r\n', '\r\r\n'])   # the newline terminal is /\r*\n/
     out = []
     if rng.random() < 0.2:
         out.append('; file header comment' + nl)
@@ -205,7 +205,7 @@ def gen_file(rng, n, *, newline=None, final_newline=None):
         elif r < 0.30:
             out.append(rng.choice(['  ', '\t', ' ']) + nl)
         if rng.random() < 0.2:
-            out.append('; leading comment' + nl + ('; second line' + nl if rng.random() < 0.3 else ''))
+            out.append('; leading comment' + nl + ((';' + nl if rng.random() < 0.4 else '') + '; second line' + nl if rng.random() < 0.35 else ''))
         elif rng.random() < 0.08:
             out.append('; standalone comment' + nl + nl)
         out.extend(gen_directive(rng, nl))
